@@ -159,8 +159,33 @@ func runC09(c *Ctx) {
 	checkUnsignedDifferences(c, "C09.U1 unsigned-difference-guarded", func(fn *ssa.Function) bool {
 		return strings.HasPrefix(FuncKey(fn), "pkg/trie/rmt.") || strings.HasPrefix(FuncKey(fn), "pkg/trie/smt.")
 	}, c09UnsignedTable, 0)
-	checkHangRules(c, fns)
-	checkLoopProgress(c, fns)
+	// the hang rules also follow what the gossip handlers hand over through a channel: a block
+	// accepted by the validator is processed by the consensus loop (process → sync → download),
+	// and a peer that stalls a loop there stalls the node
+	fnsHang := append([]*ssa.Function{}, fns...)
+	if proc := c.Anchor("pkg/consensus.(*Executer).process"); proc != nil {
+		have := map[*ssa.Function]bool{}
+		for _, f := range fns {
+			have[f] = true
+		}
+		more := reachableFrom(p, []*ssa.Function{proc}, func(f *ssa.Function) bool {
+			k := FuncKey(f)
+			// the application boundary and the local stores are not peer-driven
+			return strings.HasPrefix(k, "pkg/framework") || strings.HasPrefix(k, "pkg/statemachine") || strings.HasPrefix(k, "pkg/db") || strings.HasPrefix(k, "pkg/labi") || strings.HasPrefix(k, "pkg/trie")
+		})
+		var extra []*ssa.Function
+		for f := range more {
+			if !have[f] && IsProd(f) && len(f.Blocks) > 0 {
+				extra = append(extra, f)
+			}
+		}
+		sort.Slice(extra, func(i, j int) bool { return FuncKey(extra[i]) < FuncKey(extra[j]) })
+		fnsHang = append(fnsHang, extra...)
+		c.Count("functions added for the hang rules (consensus loop)", len(extra))
+	}
+	checkHangRules(c, fnsHang)
+	checkLoopProgress(c, fnsHang)
+	checkResultUsedAfterError(c, fns)
 
 	// ---- validators answer Reject/Ignore on error edges
 	acc, _ := p.constValue("pkg/p2p", "ValidationAccept")
@@ -311,6 +336,12 @@ func c09Discharge(c *Ctx, ff *FuncFacts, s PanicSite, via map[*ssa.Function][]st
 	case *ssa.Panic:
 		fn := x.Parent()
 		k := FuncKey(fn)
+		// go/ssa's lowering of a blocking select ends in a synthetic panic no case can reach
+		if cst, isC := x.X.(*ssa.MakeInterface); isC {
+			if kk, ok := cst.X.(*ssa.Const); ok && kk.Value != nil && strings.Contains(kk.Value.ExactString(), "blocking select matched no case") && !x.Pos().IsValid() {
+				return Discharge{true, "compiler-generated default of a blocking select (unreachable)", ""}
+			}
+		}
 		// variadic Min/Max on an empty slice: every call site reachable must pass >= 1 element
 		if strings.HasPrefix(k, "pkg/collection/ints.Min") || strings.HasPrefix(k, "pkg/collection/ints.Max") {
 			bad := ""
